@@ -1,16 +1,23 @@
 """C14 - untrusted paths and filenames cannot escape the trusted directory.
 
 Streams
-  normpath-kernel  posixpath.normpath / posixpath.join  vs  Model.Paths.normpath / join (kernel validation)
-  safe-join        werkzeug.security.safe_join(base, *1..3 components) vs Model.Paths.safeJoin;
-                   oracle: None, or the normalised result is still inside the normalised base
-  static-files     send_from_directory and SharedDataMiddleware over a real temporary tree with sentinel
-                   files outside the root; request paths percent-decoded as the dev server does;
-                   model prediction = Model.StaticFiles (sendFromDirectory / sharedData: safe_join, export
-                   matching, 404) with the existing files as the opaque isfile predicate; oracle: sentinel
-                   never served, 200 only with the content of a file inside the root
-  secure-filename  werkzeug.utils.secure_filename vs Model.Paths.secureAscii (NFKD/ascii fold computed here
-                   with unicodedata exactly as the code does); oracle: charset, no leading dot, idempotent
+  normpath-kernel     posixpath.normpath / posixpath.join  vs  Model.Paths.normpath / join (kernel validation)
+  safe-join           werkzeug.security.safe_join(base, *1..3 components) vs Model.Paths.safeJoin;
+                      oracle: None, or the normalised result is still inside the normalised base
+  static-files        send_from_directory (plain, with an absolute / relative `_root_path`, with PathLike
+                      arguments) and SharedDataMiddleware (one or several exports: directories given as
+                      absolute / relative / slash-terminated / dotted paths, single-file exports, package
+                      exports, mixed; dict or list of pairs; mount points "/static", "/", "", "/static/",
+                      nested keys; `disallow` patterns; the export key itself) over a real temporary tree in
+                      which every file has a unique content, with sentinel files outside the roots; request
+                      paths percent-decoded as the dev server does; model prediction = Model.StaticFiles
+                      (sendFromDirectory[Root] / mkExports / sharedData) with the existing files as the opaque
+                      isfile predicate and the disallowed names as the opaque is_allowed predicate;
+                      oracle: 200 only with the content of a file that lies inside (one of) the root(s)
+  secure-filename     werkzeug.utils.secure_filename vs Model.Paths.secureAscii (NFKD/ascii fold computed here
+                      with unicodedata exactly as the code does); oracle: charset, no leading dot, idempotent
+  secure-filename-nt  the same with os.name/os.sep/os.path.altsep as on Windows patched into werkzeug.utils
+                      for the duration of each call, vs Model.Paths.secureAsciiWith ['\\', '/'] true
 """
 from __future__ import annotations
 
@@ -72,28 +79,35 @@ class NormpathKernel(Stream):
     ]
 
     def cases(self, rng, tier):
+        for p in ["", "/", "a", "a/", "a/b", "/a", "//", "a//b", "a/b/", ".", "..", "a/..", "a\\b", "é/ü"]:
+            yield {"op": "basename", "p": hs(p)}
         while True:
-            if rng.random() < 0.75:
+            r = rng.random()
+            if r < 0.65:
                 yield {"op": "normpath", "p": hs(rand_component(rng))}
+            elif r < 0.75:
+                yield {"op": "basename", "p": hs(rng.choice(["", "/", "x/"]) + rand_component(rng))}
             else:
                 yield {"op": "join", "a": hs(rng.choice(BASES + ATOMS)), "ps": [hs(rand_component(rng)) for _ in range(rng.randrange(0, 4))]}
 
     def real(self, case):
         if case["op"] == "normpath":
             return hs(posixpath.normpath(unhs(case["p"])))
+        if case["op"] == "basename":
+            return hs(posixpath.basename(unhs(case["p"])))
         return hs(posixpath.join(unhs(case["a"]), *[unhs(x) for x in case["ps"]]))
 
     def model_line(self, case):
-        if case["op"] == "normpath":
-            return line("normpath", case["p"])
+        if case["op"] in ("normpath", "basename"):
+            return line(case["op"], case["p"])
         return line("join", case["a"], *case["ps"])
 
     def oracle(self, case, real_out):
         return None  # CPython's own functions: validated against the model, no werkzeug claim here
 
     def bucket(self, case, real_out):
-        if case["op"] == "join":
-            return "join"
+        if case["op"] in ("join", "basename"):
+            return case["op"]
         r = unhs(real_out)
         return "norm:" + ("abs" if r.startswith("/") else "dotdot" if r.startswith("..") else "dot" if r == "." else "rel")
 
@@ -194,82 +208,133 @@ class SafeJoin(Stream):
 
 
 # ---------------------------------------------------------------------------
-# real temporary tree
+# real temporary tree: every file has a unique content naming it, so a response body identifies the
+# file that was opened
 
 SENTINEL = b"TOP-SECRET-SENTINEL-7f3a9c"
-INSIDE = {
-    "index.html": b"inside:index",
-    "a/b.txt": b"inside:a/b",
-    ".hidden": b"inside:hidden",
-    "a.b/c..d": b"inside:c..d",
-    "sp ace.txt": b"inside:space",
-    "..a": b"inside:dotdot-a",
-    "a/...": b"inside:three-dots",
-    "\\": b"inside:backslash",
-    "é.txt": b"inside:eacute",
-    "a/secret.txt": b"inside:a/secret",
-}
+INSIDE_NAMES = ["index.html", "a/b.txt", ".hidden", "a.b/c..d", "sp ace.txt", "..a", "a/...", "\\", "é.txt", "a/secret.txt", "x.css", "a/index.html"]
+INSIDE = {rel: b"inside:" + rel.encode() for rel in INSIDE_NAMES}
+ALT_NAMES = ["index.html", "x.css", "b.txt", "only-alt.txt"]
+OUTSIDE_NAMES = ["outside/secret.txt", "root-evil/secret.txt", "rootsecret.txt", "secret.txt", "outside/a/b.txt", "outside/index.html"]
+PKG_FILES = ["__init__.py", "static/x.css", "static/a/b.txt", "static/\\", "static/index.html", "secret.txt", "static-evil/secret.txt"]
 _TREE = {}
 
 
 def tree():
-    """create base/{root,outside,root-evil}/... once per process, removed at exit"""
+    """create top/c14/{root,alt,outside,root-evil,pkgroot}/... once per process, removed at exit"""
     if _TREE:
         return _TREE
     top = f"/var/tmp/wzverif.{os.getpid()}"
     base = os.path.join(top, "c14")
     shutil.rmtree(base, ignore_errors=True)
     root = os.path.join(base, "root")
-    for rel, content in INSIDE.items():
-        p = os.path.join(root, rel)
-        os.makedirs(os.path.dirname(p), exist_ok=True)
-        with open(p, "wb") as f:
-            f.write(content)
-    for rel in ["outside/secret.txt", "root-evil/secret.txt", "rootsecret.txt", "secret.txt", "outside/a/b.txt"]:
-        p = os.path.join(base, rel)
-        os.makedirs(os.path.dirname(p), exist_ok=True)
-        with open(p, "wb") as f:
-            f.write(SENTINEL + b":" + rel.encode())
+    content = {}
+
+    def put(path, data):
+        os.makedirs(os.path.dirname(path), exist_ok=True)
+        with open(path, "wb") as f:
+            f.write(data)
+        content[data] = path
+
+    for rel, data in INSIDE.items():
+        put(os.path.join(root, rel), data)
+    for rel in ALT_NAMES:
+        put(os.path.join(base, "alt", rel), b"alt:" + rel.encode())
+    for rel in OUTSIDE_NAMES:
+        put(os.path.join(base, rel), SENTINEL + b":" + rel.encode())
     os.makedirs(os.path.join(root, "emptydir"), exist_ok=True)
     # a throw-away importable package with a static/ directory and sentinels beside / above it
     pkgname = f"wzverif_pkg_{os.getpid()}"
     pkgdir = os.path.join(base, "pkgroot", pkgname)
-    for rel, content in {"__init__.py": b"", "static/x.css": b"inside:index", "static/a/b.txt": b"inside:a/b", "static/\\": b"inside:backslash", "secret.txt": SENTINEL + b":pkg/secret.txt", "static-evil/secret.txt": SENTINEL + b":pkg/static-evil"}.items():
-        p = os.path.join(pkgdir, rel)
-        os.makedirs(os.path.dirname(p), exist_ok=True)
-        with open(p, "wb") as f:
-            f.write(content)
-    with open(os.path.join(base, "pkgroot", "secret.txt"), "wb") as f:
-        f.write(SENTINEL + b":pkgroot/secret.txt")
+    for rel in PKG_FILES:
+        inside = rel.startswith("static/")
+        put(os.path.join(pkgdir, rel), b"# pkg:__init__.py" if rel == "__init__.py" else (b"pkg:" if inside else SENTINEL + b":pkg/") + rel.encode())
+    put(os.path.join(base, "pkgroot", "secret.txt"), SENTINEL + b":pkgroot/secret.txt")
+    # F14b: a relative `_root_path` is joined twice by send_from_directory + send_file; the file that
+    # is then opened lives here (a mirror of the root below base/<relative path of base>)
+    relbase = os.path.relpath(base, os.getcwd())
+    mirror = os.path.normpath(os.path.join(base, relbase, "root"))
+    if not (mirror + "/").startswith(top + "/"):
+        mirror = None
+    else:
+        put(os.path.join(mirror, "index.html"), SENTINEL + b":mirror/index.html")
     import sys
 
     sys.path.insert(0, os.path.join(base, "pkgroot"))
-    _TREE.update(top=top, base=base, root=root, rel=os.path.relpath(root, os.getcwd()), pkgname=pkgname, pkgdir=pkgdir)
+    _TREE.update(top=top, base=base, root=root, rel=os.path.relpath(root, os.getcwd()), relbase=relbase, pkgname=pkgname, pkgdir=pkgdir, content=content, mirror=mirror)
     atexit.register(shutil.rmtree, top, True)
     return _TREE
 
 
-def root_of(case):
-    t = tree()
-    return {"abs": t["root"], "rel": t["rel"], "slash": t["root"] + "/", "dotted": t["base"] + "/outside/../root"}[case["root"]]
-
-
 ROOT_KINDS = ["abs", "rel", "slash", "dotted"]
 
-# request targets (raw, as sent on the wire, below the mount point /static/)
-RAW_ATOMS = ["%252e%252e", "..%252f", "%252f", "%255c", "..%5C", "..%5c..%5c", "x.css", "..", ".", "", "%2e%2e", "%2E%2E", "%2e", "..%2f", "%2f", "%5c", "\\", "%00", "a", "b.txt", "index.html", "secret.txt", "outside", "root-evil", "root", "rootsecret.txt", "..a", "...", "%c3%a9.txt", "%ff", "a.b", "c..d", "sp%20ace.txt", ".hidden", "~", "C:", "%252e%252e", "emptydir", "%2e%2e%2f%2e%2e", "..;", "a/secret.txt"]
+
+def root_of(rk):
+    t = tree()
+    return {"abs": t["root"], "rel": t["rel"], "slash": t["root"] + "/", "dotted": t["base"] + "/outside/../root"}[rk]
+
+
+# export values of SharedDataMiddleware, named symbolically (the tree path depends on the pid)
+def export_value(spec):
+    """-> (value handed to the constructor, ('v', value, '') | ('p', pkgdir, package_path), root directory or file)"""
+    t = tree()
+    kind, _, arg = spec.partition(":")
+    if kind == "dir":
+        if arg in ROOT_KINDS:
+            v = root_of(arg)
+            return v, ("v", v, ""), t["root"]
+        sub = {"sub": "root/a", "alt": "alt", "empty": "root/emptydir", "missing": "root/nonexistent", "subdot": "root/a.b"}[arg]
+        v = os.path.join(t["base"], sub)
+        return v, ("v", v, ""), v
+    if kind == "file":
+        v = os.path.join(t["root"], arg)
+        return v, ("v", v, ""), v
+    if kind == "pkg":
+        return (t["pkgname"], arg), ("p", t["pkgdir"], arg), os.path.join(t["pkgdir"], arg or ".")
+    raise ValueError(spec)
+
+
+MOUNTS = ["/static", "/static", "/static", "/", "", "/static/", "/s/t", "/static/a", "/a"]
+CONFIGS = [
+    # (exports as [mount-relative key transformer, spec], ...): "@" = the mount itself
+    [("@", "dir:abs")],
+    [("@", "dir:rel")],
+    [("@", "dir:slash")],
+    [("@", "dir:dotted")],
+    [("@", "pkg:static")],
+    [("@", "dir:empty"), ("@", "dir:abs")],  # the first export matches but has no such file
+    [("@", "dir:alt"), ("@", "dir:abs")],  # both may have the file: the first wins
+    [("@", "dir:abs"), ("@/a", "dir:alt")],  # list order, not prefix length
+    [("@/a", "dir:alt"), ("@", "dir:abs")],
+    [("@", "file:index.html")],  # single-file export: answers for the key and everything below
+    [("@/index.html", "file:a/b.txt"), ("@", "dir:abs")],
+    [("@", "dir:missing"), ("@", "pkg:static"), ("@", "dir:sub")],
+    [("@", "pkg:"), ("@", "dir:abs")],  # package_path "" = the package directory itself
+    [("@", "dir:subdot")],
+    [("@", "pkg:static/a"), ("@", "pkg:static/")],
+]
+DISALLOW = [None, None, None, "*.txt", "secret*", "index.html", "[ab]*", "*"]
+
+# request targets (raw, as sent on the wire, below the mount point)
+RAW_ATOMS = ["%252e%252e", "..%252f", "%252f", "%255c", "..%5C", "..%5c..%5c", "x.css", "..", ".", "", "%2e%2e", "%2E%2E", "%2e", "..%2f", "%2f", "%5c", "\\", "%00", "a", "b.txt", "index.html", "secret.txt", "outside", "root-evil", "root", "rootsecret.txt", "..a", "...", "%c3%a9.txt", "%ff", "a.b", "c..d", "sp%20ace.txt", ".hidden", "~", "C:", "%252e%252e", "emptydir", "%2e%2e%2f%2e%2e", "..;", "a/secret.txt", "alt", "only-alt.txt"]
+OUTSIDE_TARGETS = ["outside/secret.txt", "root-evil/secret.txt", "rootsecret.txt", "secret.txt", "root/index.html", "root/../outside/secret.txt", "outside/index.html", "alt/index.html", "pkgroot/secret.txt"]
+ABS_PREFIXES = ["/", "/", "//", "///", "%2f", "%2F", "./", "a/../", "/./", "/../", ".//", "a/..//", "%2f%2f", ""]
 
 
 def rand_raw(rng):
     r = rng.random()
-    if r < 0.6:
+    if r < 0.5:
         n = rng.choice([1, 1, 2, 2, 3, 3, 4, 5])
         return "/".join(rng.choice(RAW_ATOMS) for _ in range(n))
+    if r < 0.62:
+        # an absolute path (to a file outside, or inside, the root) where a relative one is expected:
+        # what is left after the mount point is stripped starts with "/" (or "//", "/./", an encoded "/")
+        return rng.choice(ABS_PREFIXES) + "@BASE@/" + rng.choice(OUTSIDE_TARGETS)
     # a path to a real file (inside, or a sentinel outside), decorated the way scanners do
-    if r < 0.8:
-        segs = rng.choice(list(INSIDE)).split("/")
+    if r < 0.84:
+        segs = rng.choice(INSIDE_NAMES + ALT_NAMES).split("/")
     else:
-        segs = [".."] * rng.randrange(0, 3) + rng.choice(["outside/secret.txt", "root-evil/secret.txt", "rootsecret.txt", "secret.txt", "root/index.html", "root/../outside/secret.txt"]).split("/")
+        segs = [".."] * rng.randrange(0, 3) + rng.choice(OUTSIDE_TARGETS).split("/")
     out = []
     for sg in segs:
         d = rng.random()
@@ -290,7 +355,6 @@ def rand_raw(rng):
 
 
 def hostile_raws():
-    absq = "/@BASE@"
     return [
         "../outside/secret.txt",
         "%2e%2e/outside/secret.txt",
@@ -314,9 +378,14 @@ def hostile_raws():
         "../root-evil/secret.txt",
         "../rootsecret.txt",
         "../secret.txt",
-        "/" + absq.lstrip("/") + "/outside/secret.txt",
-        "%2f" + absq.lstrip("/") + "/outside/secret.txt",
-        "//" + absq.lstrip("/") + "/outside/secret.txt",
+        # absolute remainders: the rest of the path behind the mount point starts with a slash
+        "/@BASE@/outside/secret.txt",
+        "%2f@BASE@/outside/secret.txt",
+        "//@BASE@/outside/secret.txt",
+        "@BASE@/outside/secret.txt",
+        "/./@BASE@/outside/secret.txt",
+        "./@BASE@/outside/secret.txt",
+        "/@BASE@/root/index.html",
         "..\\outside\\secret.txt",
         "..%5coutside%5csecret.txt",
         "%00/../../outside/secret.txt",
@@ -368,59 +437,165 @@ def make_environ(path_decoded: str):
     }
 
 
+def with_slash(mount):
+    return mount if mount.endswith("/") else mount + "/"
+
+
+def inside_dir(path, root):
+    """is the existing file `path` the file `root` or below the directory `root`? (no symlinks in the tree)"""
+    path, root = os.path.realpath(path), os.path.realpath(root)
+    return path == root or path.startswith(root.rstrip("/") + "/")
+
+
 class StaticFiles(Stream):
+    """cases:
+    {"kind": "sfd", "root": <root kind>, "raw": <request target below /static/>, "rootpath": None|"abs"|"rel", "pathlike": bool}
+        a routed view `/static/<path:filename>` handing the rest of the path to send_from_directory
+    {"kind": "sdm", "exports": [[key, spec], ...], "raw": <whole request target>, "disallow": None|pattern, "as_list": bool}
+        SharedDataMiddleware(app, exports, disallow=...) called with that request
+    (the older forms {"kind": "sdm"|"sdm-exact"|"sdm-pkg", "root", "raw"} are still read)"""
+
     name = "static-files"
     corpus: list = []  # filled lazily (needs the tree path): see cases()
 
-    def cases(self, rng, tier):
-        for raw in hostile_raws():
-            for kind in ("sfd", "sdm"):
-                for rk in ROOT_KINDS:
-                    yield {"kind": kind, "root": rk, "raw": raw}
-            yield {"kind": "sdm-pkg", "root": "abs", "raw": raw}
-        # regression F14a (fixed): a NUL under a package export must fall through to 404
-        for raw in ("%00", "..a/%00", "x.css%00", "a/%00/b.txt"):
-            yield {"kind": "sdm-pkg", "root": "abs", "raw": raw}
-        n = 0
-        limit = 1200 if tier == "quick" else 20000
-        while n < limit:
-            n += 1
-            yield {"kind": rng.choice(["sfd", "sfd", "sdm", "sdm-exact", "sdm-pkg"]), "root": rng.choice(ROOT_KINDS), "raw": rand_raw(rng)}
+    # -- case plumbing ------------------------------------------------------------------------
+    @staticmethod
+    def norm(case):
+        k = case["kind"]
+        if k == "sfd":
+            return {"rootpath": None, "pathlike": False, **case}
+        if "exports" in case:
+            return {"disallow": None, "as_list": False, **case}
+        raw = case["raw"]
+        if k == "sdm-pkg":
+            return {"kind": "sdm", "exports": [["/static", "pkg:static"]], "raw": "/static/" + raw, "disallow": None, "as_list": False}
+        if k == "sdm-exact":
+            return {"kind": "sdm", "exports": [["=", "dir:" + case["root"]]], "raw": "/static/" + raw, "disallow": None, "as_list": False}
+        return {"kind": "sdm", "exports": [["/static", "dir:" + case["root"]]], "raw": "/static/" + raw, "disallow": None, "as_list": False}
 
     @staticmethod
-    def decoded(case):
+    def sdm_case(mount, config, raw, disallow=None, as_list=False):
+        exports = [[key.replace("@", mount), spec] for key, spec in config]
+        return {"kind": "sdm", "exports": exports, "raw": with_slash(mount) + raw, "disallow": disallow, "as_list": as_list}
+
+    def cases(self, rng, tier):
+        for raw in hostile_raws():
+            for rk in ROOT_KINDS:
+                yield {"kind": "sfd", "root": rk, "raw": raw, "rootpath": None, "pathlike": False}
+                yield self.sdm_case("/static", [("@", "dir:" + rk)], raw)
+            yield self.sdm_case("/static", [("@", "pkg:static")], raw)
+            yield {"kind": "sfd", "root": "abs", "raw": raw, "rootpath": "abs", "pathlike": False}
+            # other mount points: at "/" (and "") the rest of "//x" is the absolute "/x"
+            for mount in ("/", "", "/static/", "/s/t"):
+                yield self.sdm_case(mount, [("@", "dir:abs")], raw)
+            yield self.sdm_case("/", [("@", "pkg:static")], raw)
+        # regression F14a (fixed): a NUL under a package export must fall through to 404
+        for raw in ("%00", "..a/%00", "x.css%00", "a/%00/b.txt"):
+            yield self.sdm_case("/static", [("@", "pkg:static")], raw)
+        # every configuration x the key itself / a file / an escape
+        for config in CONFIGS:
+            for mount in ("/static", "/"):
+                for raw in ("index.html", "a/index.html", "a/b.txt", "x.css", "../outside/secret.txt", "/@BASE@/outside/secret.txt", "index.html/../../x", "only-alt.txt", "secret.txt", "../secret.txt"):
+                    yield self.sdm_case(mount, config, raw, as_list=(len(raw) % 2 == 0))
+                c = self.sdm_case(mount, config, "")
+                yield {**c, "raw": mount}  # the export key itself (`loader(None)`)
+        for pat in DISALLOW[3:]:
+            for raw in ("index.html", "a/b.txt", "a/secret.txt", "x.css"):
+                yield self.sdm_case("/static", [("@", "dir:abs")], raw, disallow=pat)
+                yield self.sdm_case("/static", [("@", "dir:alt"), ("@", "dir:abs")], raw, disallow=pat)
+        if tier == "thorough":
+            # every configuration x every mount point x every hostile target, dict and list form
+            for config in CONFIGS:
+                for mount in sorted(set(MOUNTS)):
+                    for raw in hostile_raws():
+                        yield self.sdm_case(mount, config, raw, as_list=True)
+            for rk in ROOT_KINDS:
+                for rootpath in ("abs", "rel"):
+                    for raw in hostile_raws():
+                        yield {"kind": "sfd", "root": rk, "raw": raw, "rootpath": rootpath, "pathlike": False}
+                        yield {"kind": "sfd", "root": rk, "raw": raw, "rootpath": None, "pathlike": True}
+        n = 0
+        limit = 1400 if tier == "quick" else 20000
+        while n < limit:
+            n += 1
+            if rng.random() < 0.35:
+                yield {"kind": "sfd", "root": rng.choice(ROOT_KINDS), "raw": rand_raw(rng), "rootpath": rng.choice([None, None, None, "abs", "abs", "rel"]), "pathlike": rng.random() < 0.15}
+            else:
+                c = self.sdm_case(rng.choice(MOUNTS), rng.choice(CONFIGS), rand_raw(rng), rng.choice(DISALLOW), rng.random() < 0.3)
+                if rng.random() < 0.06:
+                    c["raw"] = rng.choice(c["exports"])[0]  # an export key itself
+                yield c
+
+    @staticmethod
+    def unbase(raw):
+        return raw.replace("@BASE@", quote(tree()["base"]).lstrip("/"))
+
+    @classmethod
+    def decoded(cls, case):
         # what the development server does with the request target (serving.WSGIRequestHandler.make_environ)
-        raw = case["raw"].replace("@BASE@", quote(tree()["base"]).lstrip("/"))
-        return unquote("/static/" + raw)
+        case = cls.norm(case)
+        if case["kind"] == "sfd":
+            return unquote("/static/" + cls.unbase(case["raw"]))
+        return unquote(cls.unbase(case["raw"]))
+
+    @classmethod
+    def sfd_args(cls, case):
+        """(directory, filename, _root_path or None, directory the file must stay in)"""
+        t = tree()
+        filename = cls.decoded(case)[len("/static/") :]
+        if case["rootpath"] is None:
+            return root_of(case["root"]), filename, None, t["root"]
+        directory = {"abs": "root", "rel": "root", "slash": "root/", "dotted": "outside/../root"}[case["root"]]
+        return directory, filename, (t["base"] if case["rootpath"] == "abs" else t["relbase"]), t["root"]
+
+    @classmethod
+    def sdm_args(cls, case):
+        """(path, exports for the constructor, driver export groups, roots)"""
+        path = cls.decoded(case)
+        real_exports, groups, roots = [], [], []
+        for key, spec in case["exports"]:
+            if key == "=":
+                key = path
+            value, grp, root = export_value(spec)
+            real_exports.append((key, value))
+            groups.append((key,) + grp)
+            roots.append(root)
+        if not case["as_list"]:
+            # a dict keeps the first position and the last value of a repeated key
+            keep = {}
+            for i, (key, _v) in enumerate(real_exports):
+                keep[key] = i
+            idx = list(keep.values())
+            real_exports, groups, roots = [real_exports[i] for i in idx], [groups[i] for i in idx], [roots[i] for i in idx]
+        return path, real_exports, groups, roots
 
     def real(self, case):
+        import pathlib
+
         from werkzeug.exceptions import HTTPException
         from werkzeug.middleware.shared_data import SharedDataMiddleware
         from werkzeug.utils import send_from_directory
         from werkzeug.wsgi import get_path_info
 
-        root = root_of(case)
-        path = self.decoded(case)
-        environ = make_environ(path)
+        case = self.norm(case)
         if case["kind"] == "sfd":
-            # a routed view `/static/<path:filename>` handing the rest of the path to send_from_directory
+            directory, _filename, rootpath, _ = self.sfd_args(case)
+            environ = make_environ(self.decoded(case))
             filename = get_path_info(environ)[len("/static/") :]
+            if case["pathlike"]:
+                directory, filename = pathlib.PurePosixPath(directory), pathlib.PurePosixPath(filename)
+            kwargs = {} if rootpath is None else {"_root_path": rootpath}
             try:
-                resp = send_from_directory(root, filename, environ)
+                resp = send_from_directory(directory, filename, environ, **kwargs)
             except HTTPException as e:
                 return f"{e.code}|-"
             resp.direct_passthrough = False
             body = resp.get_data()
             resp.close()
             return f"{resp.status_code}|{body.hex() or '-'}"
-        if case["kind"] == "sdm-pkg":
-            # a package export: served through get_package_loader / reader.open_resource
-            mw = SharedDataMiddleware(fallback_app, {"/static": (tree()["pkgname"], "static")}, cache=False)
-        elif case["kind"] == "sdm-exact":
-            # the export key is the whole path (loader(None) branch first)
-            mw = SharedDataMiddleware(fallback_app, {path: root})
-        else:
-            mw = SharedDataMiddleware(fallback_app, {"/static": root}, cache=False)
+        path, exports, _, _ = self.sdm_args(case)
+        environ = make_environ(path)
+        mw = SharedDataMiddleware(fallback_app, exports if case["as_list"] else dict(exports), disallow=case["disallow"], cache=False)
         status = []
         it = mw(environ, lambda s, h, exc_info=None: status.append(s))
         try:
@@ -436,68 +611,153 @@ class StaticFiles(Stream):
     @staticmethod
     def existing_files():
         t = tree()
-        out = []
-        for dirpath, _dirs, files in os.walk(t["base"]):
-            out += [os.path.join(dirpath, f) for f in files]
-        return sorted(out)
+        if "files" not in t:
+            out = []
+            for dirpath, _dirs, files in os.walk(t["top"]):
+                out += [os.path.join(dirpath, f) for f in files]
+            t["files"] = sorted(out)
+        return t["files"]
 
     def model_line(self, case):
-        # the model computes the whole decision (safe_join, export matching, 404); the file system
-        # enters as the list of existing regular files (os.path.isfile as an opaque predicate)
-        root = root_of(case)
-        path = self.decoded(case)
-        files = [hs(f) for f in self.existing_files()]
+        # the model computes the whole decision (safe_join, export matching, loaders, is_allowed gate,
+        # the _root_path joins, 404); the file system enters as the list of existing regular files
+        # (os.path.isfile as an opaque predicate), fnmatch as the list of disallowed file names
+        import pathlib
+        from fnmatch import fnmatch
+
+        case = self.norm(case)
+        files = self.existing_files()
+        hfiles = [hs(f) for f in files]
         if case["kind"] == "sfd":
-            return line("sfd", hs(os.getcwd()), hs(root), hs(path[len("/static/") :]), *files)
-        if case["kind"] == "sdm-pkg":
-            return line("sdmpkg", hs(tree()["pkgdir"]), hs(path), hs("/static"), hs("static"), *files)
-        search = path if case["kind"] == "sdm-exact" else "/static"
-        return line("sdm", hs(os.getcwd()), hs(path), hs(search), hs(root), *files)
+            directory, filename, rootpath, _ = self.sfd_args(case)
+            if case["pathlike"]:
+                directory, filename = os.fspath(pathlib.PurePosixPath(directory)), os.fspath(pathlib.PurePosixPath(filename))
+            if rootpath is None and not case["pathlike"]:
+                return line("sfd", hs(os.getcwd()), hs(directory), hs(filename), *hfiles)
+            return line("sfdroot", hs(os.getcwd()), opt(hs, rootpath), hs(directory), hs(filename), *hfiles)
+        path, exports, groups, _ = self.sdm_args(case)
+        flat = []
+        for key, kind, a, b in groups:
+            flat += [hs(key), kind, hs(a), hs(b)]
+        dis = []
+        if case["disallow"] is not None:
+            dis = sorted({hs(os.path.basename(f)) for f in files if fnmatch(os.path.basename(f), case["disallow"])})
+        return line("sdm", hs(os.getcwd()), hs(path), str(len(groups)), *flat, str(len(dis)), *dis, *hfiles)
 
     def canon_model(self, case, out):
-        # the file system is outside the model: complete the model's joined path with os.path.isfile
+        # the file system is outside the model: complete the model's opened path with the file's content
         if out == "~":
             return "404|-"
         if out.startswith("EXC") or out.startswith("BAD") or out.startswith("UNKNOWN"):
             return out
-        p = unhs(out)
-        if case["kind"] == "sdm-pkg":
-            p = os.path.join(tree()["pkgdir"], p)
-        with open(p, "rb") as f:
-            return "200|" + f.read().hex()
+        p = unhs(out.split(" ")[-1])  # sfdroot answers "<tested> <opened>"
+        try:
+            with open(p, "rb") as f:
+                return "200|" + (f.read().hex() or "-")
+        except FileNotFoundError:
+            return "EXC:FileNotFoundError"
 
-    def oracle(self, case, real_out):
-        if real_out.startswith("EXC"):
-            return f"static file helper raised {real_out}"
+    def served_file(self, real_out):
         code, _, body = real_out.partition("|")
         data = b"" if body == "-" else bytes.fromhex(body)
-        if SENTINEL in data:
-            return f"sentinel outside the root was served for {self.decoded(case)!r}"
-        if code == "200" and data not in INSIDE.values():
-            return f"200 with a body that is not a file inside the root for {self.decoded(case)!r}"
+        return code, data, tree()["content"].get(data)
+
+    def oracle(self, case, real_out):
+        case = self.norm(case)
+        if real_out.startswith("EXC"):
+            return f"static file helper raised {real_out} for {self.decoded(case)!r}"
+        code, data, served = self.served_file(real_out)
+        if code != "200":
+            if SENTINEL in data:
+                return f"sentinel outside the root was served for {self.decoded(case)!r}"
+            return None
+        if served is None:
+            return f"200 with a body that is no file of the tree for {self.decoded(case)!r}"
+        roots = [self.sfd_args(case)[3]] if case["kind"] == "sfd" else self.sdm_args(case)[3]
+        if not any(inside_dir(served, r) for r in roots):
+            what = "sentinel" if SENTINEL in data else "file"
+            return f"{what} {served!r} outside the root(s) {roots!r} was served for {self.decoded(case)!r}"
+        return None
+
+    def finding_key(self, case, what):
+        # F14b: send_from_directory + send_file join a *relative* `_root_path` twice: the file that was
+        # tested (inside the root) is not the file that is opened
+        case = self.norm(case)
+        if case["kind"] == "sfd" and case["rootpath"] == "rel":
+            _d, filename, _r, root = self.sfd_args(case)
+            tested = os.path.normpath(os.path.join(root, filename))
+            legit = inside_dir(tested, root) and os.path.isfile(tested) and not (filename.startswith("/") or "\x00" in filename)
+            mirror = tree()["mirror"]
+            if legit and ("EXC:FileNotFoundError" in what or (mirror and repr(mirror)[1:-1] in what)):
+                return "F14b"
         return None
 
     def nontrivial(self, case, real_out):
         return real_out.startswith("200")
 
     def bucket(self, case, real_out):
-        return case["kind"] + ":" + real_out.partition("|")[0]
+        case = self.norm(case)
+        k = case["kind"]
+        if k == "sfd":
+            k += {None: "", "abs": "+absroot", "rel": "+relroot"}[case["rootpath"]] + ("+pathlike" if case["pathlike"] else "")
+        else:
+            kinds = sorted({spec.partition(":")[0] for _k, spec in case["exports"]})
+            k += f"[{len(case['exports'])}:{'+'.join(kinds)}]" + ("+disallow" if case["disallow"] else "")
+        return k + ":" + real_out.partition("|")[0]
 
     def mutate(self, case, rng):
-        for raw in hostile_raws():
-            yield {"kind": case["kind"], "root": case["root"], "raw": raw}
-        for a in RAW_ATOMS:
-            yield {"kind": case["kind"], "root": case["root"], "raw": a + "/" + case["raw"]}
-            yield {"kind": case["kind"], "root": case["root"], "raw": case["raw"] + "/" + a}
+        case = self.norm(case)
+        raws = hostile_raws()
+        if case["kind"] == "sfd":
+            for raw in raws:
+                yield {**case, "raw": raw}
+            for a in RAW_ATOMS:
+                yield {**case, "raw": a + "/" + case["raw"]}
+                yield {**case, "raw": case["raw"] + "/" + a}
+            return
+        # fewer exports, no disallow, then other request targets below the first key
+        if len(case["exports"]) > 1:
+            for i in range(len(case["exports"])):
+                yield {**case, "exports": case["exports"][:i] + case["exports"][i + 1 :]}
+        if case["disallow"] is not None:
+            yield {**case, "disallow": None}
+        if case["as_list"]:
+            yield {**case, "as_list": False}
+        key = case["exports"][0][0]
+        if key != "=":
+            for raw in raws:
+                yield {**case, "raw": with_slash(key) + raw}
+            for mount in ("/", "/static", ""):
+                for raw in raws:
+                    yield self.sdm_case(mount, [("@", case["exports"][0][1])], raw)
 
 
 # ---------------------------------------------------------------------------
 
 ALLOWED = set("ABCDEFGHIJKLMNOPQRSTUVWXYZabcdefghijklmnopqrstuvwxyz0123456789_.-")
-FN_ATOMS = ["a", "b", "Z", "0", ".", "..", "_", "-", " ", "/", "\\", "\t", "\n", "\x1c", "\x1f", "\x0b", "\x85", "\xa0", "\u3000", "\u2028", "．", "／", "＼", "ａ", "Ａ", "．．", "é", "ü", "ß", "ﬁ", "℀", "…", "‥", "․", "⁄", "∕", "\x00", "~", "$", "%2e", ":", "C:", "COM1", "NUL", "con", ".txt", "..txt", "__", "._", "_.", "\U0001f600", "①", "㎏", "ｱ", "\u0301", "\u202e", "\u200b", "\ufeff", "\u00ad", "＿", "－", "︒", "﹒"]
+FN_ATOMS = ["a", "b", "Z", "0", ".", "..", "_", "-", " ", "/", "\\", "\t", "\n", "\x1c", "\x1f", "\x0b", "\x85", "\xa0", "\u3000", "\u2028", "．", "／", "＼", "ａ", "Ａ", "．．", "é", "ü", "ß", "ﬁ", "℀", "…", "‥", "․", "⁄", "∕", "\x00", "~", "$", "%2e", ":", "C:", "COM1", "NUL", "con", "CON", "Com1", "LPT9", "LPT10", "COM0", "aux", "PRN", "nul.", "COM\u00b9", "_CON", "CON.", ".txt", ".tar.gz", "..txt", "__", "._", "_.", "\U0001f600", "①", "㎏", "ｱ", "\u0301", "\u202e", "\u200b", "\ufeff", "\u00ad", "＿", "－", "︒", "﹒"]
+
+
+LENGTHS = [31, 32, 63, 64, 127, 128, 143, 254, 255, 256, 259, 260, 511, 512, 1023, 1024, 4095, 4096]
+TAILS = [".tar.gz", ".", "_", " ", "._", " .", "/", "\\", ".a", "_a", " a", "..", "__", "-", "é", ".é.", "$.", "$ $"]
+
+
+def long_filename(rng):
+    """names whose cleaned length is at / around the limits file systems and code like to cut at, with a
+    character that the final strip removes (or that becomes one) right at the cut"""
+    if rng.random() < 0.4:
+        # periodic names: a strippable character at every second / third position, any length
+        unit = rng.choice(["x.", "a_", "ab.", "x. ", "x/", "._x", "a-.", "x\\y_", "x..", ".x", "a_._", "x_."])
+        return "abc"[: rng.randrange(0, 4)] + unit * rng.choice([1, 2, 3, 5, 8, 16, 30, 33, 50, 64, 100, 128, 130, 200, 300, 520, 1100, 2100])
+    L = rng.choice(LENGTHS) if rng.random() < 0.6 else rng.randrange(1, 300)
+    tail = "".join(rng.choice(TAILS) for _ in range(rng.choice([1, 1, 2, 3])))
+    n = max(0, L - rng.randrange(0, len(tail) + 4))
+    return rng.choice(["x", "x", "ab", "X1"]) * n + tail + rng.choice(["", "", "y", "yy", "y" * 7, ".txt"])
 
 
 def rand_filename(rng):
+    if rng.random() < 0.1:
+        return long_filename(rng)
     n = rng.choice([1, 2, 3, 4, 5, 6, 9, 12])
     out = []
     for _ in range(n):
@@ -525,7 +785,12 @@ class SecureFilename(Stream):
     name = "secure-filename"
     corpus = [
         {"s": hs(s)}
-        for s in ["", "My cool movie.mov", "../../../etc/passwd", "i contain cool \xfcml\xe4uts.txt", ".", "..", "...", "._", "_.", ". .", "/", "\\", "a/b", "a\\b", "．．／ｅｔｃ／ｐａｓｓｗｄ", "．hidden", "․hidden", "‥/x", "…", " .a", "\x1c.a", "a\x1fb", ".\x00.", "a \t\n b", "_a_", "-a-", ".-.", "$.$a", "~/.ssh", "a b", "a  b", " a ", "\x85a", "\xa0.a", "\u3000.a", "é", "⁄etc⁄passwd", "℀", "COM1", "a\u0301", ". $ .x", "x.$", "$ .x", "x $. "]
+        for s in ["", "My cool movie.mov", "../../../etc/passwd", "i contain cool \xfcml\xe4uts.txt", ".", "..", "...", "._", "_.", ". .", "/", "\\", "a/b", "a\\b", "．．／ｅｔｃ／ｐａｓｓｗｄ", "．hidden", "․hidden", "‥/x", "…", " .a", "\x1c.a", "a\x1fb", ".\x00.", "a \t\n b", "_a_", "-a-", ".-.", "$.$a", "~/.ssh", "a b", "a  b", " a ", "\x85a", "\xa0.a", "\u3000.a", "é", "⁄etc⁄passwd", "℀", "COM1", "a\u0301", ". $ .x", "x.$", "$ .x", "x $. ", "CON", "con.txt", "_CON", "COM\u00b9.txt", "LPT10", "nul.tar.gz", "a $ b"]
+    ] + [
+        # cleaned names around the usual length limits with a strippable character at the cut
+        {"s": hs("x" * (L - k) + tail)}
+        for L in (64, 128, 255, 256, 260, 1024, 4096)
+        for k, tail in ((5, ".tar.gz"), (1, "._y"), (1, " a"), (0, ".y"), (2, "_.__y"))
     ]
 
     def cases(self, rng, tier):
@@ -540,9 +805,12 @@ class SecureFilename(Stream):
     def model_line(self, case):
         return line("secure", hs(fold(unhs(case["s"]))))
 
-    def oracle(self, case, real_out):
+    def again(self, r):
         from werkzeug.utils import secure_filename
 
+        return secure_filename(r)
+
+    def oracle(self, case, real_out):
         if real_out.startswith("EXC"):
             return f"secure_filename raised {real_out}"
         r = unhs(real_out)
@@ -554,7 +822,7 @@ class SecureFilename(Stream):
         if r.startswith("."):
             return f"output {r!r} starts with a dot"
         try:
-            again = secure_filename(r)
+            again = self.again(r)
         except Exception as e:  # noqa: BLE001
             return f"secure_filename raised {type(e).__name__} on its own output {r!r}"
         if again != r:
@@ -578,16 +846,71 @@ class SecureFilename(Stream):
             yield {"s": hs(s + a)}
 
 
+class _NtOs:
+    """stands in for the `os` module inside werkzeug.utils while a case runs: Windows' values for the
+    three attributes secure_filename reads (`os.name`, `os.sep`, `os.path.altsep`), everything else
+    forwarded to the real module"""
+
+    name = "nt"
+    sep = "\\"
+
+    class path:  # noqa: N801
+        altsep = "/"
+
+    def __getattr__(self, attr):
+        return getattr(os, attr)
+
+
+class SecureFilenameNt(SecureFilename):
+    """secure_filename with the Windows branch switched on (`os.name == "nt"`, `os.sep == "\\"`,
+    `os.path.altsep == "/"` patched into werkzeug.utils for the duration of the call) vs
+    Model.Paths.secureAsciiWith ['\\', '/'] true; same oracle (the property's clauses hold on every
+    platform; nothing is demanded about device names)"""
+
+    name = "secure-filename-nt"
+
+    @staticmethod
+    def call(s):
+        import werkzeug.utils as wu
+
+        saved = wu.os
+        wu.os = _NtOs()
+        try:
+            return wu.secure_filename(s)
+        finally:
+            wu.os = saved
+
+    def real(self, case):
+        return hs(self.call(unhs(case["s"])))
+
+    def model_line(self, case):
+        return line("securewith", hs("\\/"), "1", hs(fold(unhs(case["s"]))))
+
+    def again(self, r):
+        return self.call(r)
+
+    def bucket(self, case, real_out):
+        b = super().bucket(case, real_out)
+        if b == "changed" and unhs(real_out).startswith("_"):
+            return "device-prefixed"
+        return b
+
+
 CHECK = Check(
     prop="C14",
     gen=["Paths", "PyFns_Paths", "StaticGlue"],
     modules=["WzVerif.Props.C14", "WzVerif.Props.C14T"],
-    streams=[NormpathKernel(), SafeJoin(), StaticFiles(), SecureFilename(), PreludeKernels()],
+    streams=[NormpathKernel(), SafeJoin(), StaticFiles(), SecureFilename(), SecureFilenameNt(), PreludeKernels()],
     assumptions=[
+        "round 3: the export loop and the is_allowed gate of SharedDataMiddleware.__call__ (up to the statement that starts assembling the response: the translation stops there) are regenerated from the source by tools/py2lean.py (Gen/PyFns_Paths.lean shared_data_select; loaders and file-loader objects abstract; real_filename starts unbound) and proved equal to the hand model findExport / sharedData for all exports and request paths (Props/C14T): no UnboundLocalError is reachable for any loader, a TypeError only for a loader answering (None, file_loader)",
         "POSIX path semantics (posixpath; os.sep == '/', os.path.altsep is None): _os_alt_seps is regenerated and the containment theorem is proved for an arbitrary alternative-separator list, but ntpath joining is not modelled",
         "posixpath.normpath / join are hand-modelled from CPython 3.12 and validated by stream normpath-kernel, not verified",
         "unicodedata.normalize('NFKD', .) is an opaque parameter of the secure_filename model; the only law used (idempotence theorem) is that it is the identity on ASCII text; the harness computes the fold with unicodedata exactly as the code does",
-        "the file system is outside the model: os.path.isfile enters Model/StaticFiles.lean as an arbitrary predicate (theorem served_path_inside_root holds for every such predicate); stream static-files passes the list of existing regular files; symbolic links inside the root are out of scope (safe_join is purely lexical)",
+        "the file system is outside the model: os.path.isfile enters Model/StaticFiles.lean as an arbitrary predicate (theorem served_path_inside_root holds for every such predicate); stream static-files passes the list of existing regular files; symbolic links inside the root, case-insensitive or name-normalising file systems and races between the isfile test and open() are out of scope (safe_join is purely lexical)",
+        "SharedDataMiddleware: is_allowed (fnmatch against `disallow`, or a subclass override) is an arbitrary predicate on real_filename; a package export enters as the directory importlib's resource reader resolves resources against (FileReader semantics: open(<package dir>/<resource>)); os.path.isfile(value) at construction time is a separate predicate; get_path_info (latin-1 -> UTF-8 re-decoding of PATH_INFO) is not modelled, the request path is the decoded text; mimetype / cache / etag headers are not modelled (AST facts glue_export_loop_shape: nothing but is_allowed gates the file after the loop); export values other than str / tuple raise TypeError in this version (no callable loaders)",
+        "send_from_directory: os.fspath of PathLike arguments is pathlib's (the stream passes PurePosixPath objects, the model receives os.fspath of them); without _root_path send_file opens os.path.abspath(path_str), modelled as the same path relative to the working directory; known finding F14b (relative _root_path joined twice) is excluded by the hypothesis of send_from_directory_root_partial",
+        "secure_filename on Windows: the device-file branch and the separators are parameters of the model (secureAsciiWith seps nt); stream secure-filename-nt switches the branch on by patching the three os attributes the function reads inside werkzeug.utils (name, sep, path.altsep); ntpath itself is never used",
+        "FileStorage.save(dst) writes to dst as given (no sanitising): outside the property's claim, which only speaks about secure_filename; nothing of FileStorage is modelled",
         "containment is lexical: 'inside' means the segments of normpath(result) extend the segments of normpath(base) without '..' and with the same root ('', '/', '//')",
         "safe_join and secure_filename (whole function; NFKD opaque, the Windows branch decided at generation time) are regenerated from the source by tools/py2lean.py (Gen/PyFns_Paths.lean) on every run and proved equal to the hand models safeJoinWith / secureFilename for all inputs (Props/C14T, containment and charset restated on the translated definitions); posixpath.normpath/join/isabs stay the hand models, the other CPython primitives the translated code calls are modelled in Util/PyPrelude.lean and validated by stream prelude-kernels",
     ],
@@ -597,7 +920,7 @@ CHECK = Check(
 )
 
 MANIFEST = {
-    "level_text": "Machine-checked Lean 4 theorems about an executable model of posixpath.normpath/join, werkzeug.security.safe_join and the ASCII stage of secure_filename: normal-form shape of normpath, lexical containment of every accepted safe_join result for every base and any number of components, charset / no-leading-dot / idempotence of secure_filename; constants (_os_alt_seps, the strip regex class on every code point, strip/join literals) are regenerated from the source on every run; the hand model is tied to the code by differential streams, incl. send_from_directory and SharedDataMiddleware over a real temporary tree with sentinels outside the root.",
+    "level_text": "Machine-checked Lean 4 theorems about an executable model of posixpath.normpath/join, werkzeug.security.safe_join, the path computation of send_from_directory (incl. _root_path) and SharedDataMiddleware (export loop, directory / file / package loaders, is_allowed gate) and the ASCII stage of secure_filename (platform separators and the Windows device branch as parameters): normal-form shape of normpath, lexical containment of every accepted safe_join result for every base and any number of components, exact characterisation of what safe_join refuses and returns, every served file lies inside the root of the first export that yields a file (for every file-system predicate), charset / no-leading-dot / idempotence of secure_filename on every platform; constants (_os_alt_seps, the strip regex class on every code point, strip/join literals) are regenerated from the source on every run; the hand model is tied to the code by differential streams, incl. send_from_directory and SharedDataMiddleware over a real temporary tree with sentinels outside the root.",
     "level_note": "Trusted: Lean kernel; extract.py; the correspondence harness; CPython posixpath/str/re for the modelled primitives (validated, not verified). NFKD is an opaque parameter (law: identity on ASCII). POSIX only; file system and symlinks outside the model.",
     "technique": "Lean 4 proof (induction over component lists with a stack invariant; decide over regenerated tables) + model/code correspondence + end-to-end oracle on a real file tree",
     "design_ref": "DESIGN.md section 4, C14",
